@@ -858,6 +858,56 @@ example : proposalValidateBasic {
     blockHash := List.replicate 32 1, total := 1, root := [], sigLen := 64 } = .error .incomplete := by
   simp [proposalValidateBasic, validateHash, isCompleteID, hashSize, maxSignatureSize]
 
+
+/-! ## The block store keeps what the part set held -/
+
+/-- `LoadBlock` after `SaveBlock` of the part set cut from `data`: exactly `data` reaches the decoder,
+and saving other heights in between does not disturb it. -/
+theorem store_load_after_save (st : BStore) (h : Int) (data : Bytes) (psize : Nat) (hp : 0 < psize) :
+    bsLoadBlock (bsSave st h (fromData H data psize)) h = some data := by
+  have hasm : assemble (fromData H data psize) = data := by
+    have hm : (fromData H data psize).parts.map partBytes = split data psize := by
+      unfold fromData
+      apply List.ext_getElem?
+      intro i
+      by_cases hi : i < (split data psize).length
+      · simp [hi, partBytes]
+      · simp [hi, List.getElem?_eq_none_iff.mpr (Nat.le_of_not_lt hi)]
+    unfold assemble
+    rw [hm]
+    exact split_join data psize hp
+  simp [bsLoadBlock, bsParts, bsSave, hasm]
+
+theorem find_filter_other (l : List (Int × PartSet)) (h h' : Int) (hne : h' ≠ h) :
+    List.find? (fun e => e.1 == h') (l.filter (fun e => e.1 != h)) = List.find? (fun e => e.1 == h') l := by
+  induction l with
+  | nil => rfl
+  | cons e es ih =>
+    by_cases he : e.1 = h
+    · have hb : (e.1 != h) = false := by simp [he]
+      have hb' : (e.1 == h') = false := by simp [he]; exact fun x => hne x.symm
+      rw [List.filter_cons, hb, List.find?_cons, hb']
+      simpa using ih
+    · have hb : (e.1 != h) = true := by simp [he]
+      rw [List.filter_cons, hb]
+      simp only [if_true, List.find?_cons]
+      split
+      · rfl
+      · exact ih
+
+theorem store_other_heights_untouched (st : BStore) (h h' : Int) (ps : PartSet) (hne : h' ≠ h) :
+    bsLoadBlock (bsSave st h ps) h' = bsLoadBlock st h' := by
+  have h1 : ((h == h') = false) := by simp; exact fun e => hne e.symm
+  simp only [bsLoadBlock, bsParts, bsSave, List.find?_cons, h1]
+  rw [find_filter_other st.blocks h h' hne]
+
+/-- and each stored part read back is the part that was saved, at its own index -/
+theorem store_part_after_save (st : BStore) (h : Int) (data : Bytes) (psize : Nat) (i : Nat)
+    (hi : i < (split data psize).length) :
+    (bsLoadPart (bsSave st h (fromData H data psize)) h i).map (fun p => (p.index, p.bytes, p.proof)) =
+      some (i, (split data psize).getD i [], proofOf H (split data psize) i) := by
+  simp [bsLoadPart, bsParts, bsSave, fromData, hi]
+
 /-! Non-vacuity of the reader theorems: a set with an empty part in the middle, read 2 bytes at a time. -/
 example : rdSeq [2, 2, 2] [1] [[], [2, 3], []] = [([1, 2], false), ([3], true), ([], true)] := by decide
 
